@@ -194,7 +194,7 @@ def _dispatch(t):
 
 
 def valid_messages(tier):
-    rich = tier == 'thorough'
+    rich = True          # (the quick tier uses what used to be the thorough alphabet; thorough goes beyond it)
     hdr = [(R.F_PATH, (b'o', b'/a')), (R.F_MEMBER, (b's', b'M'))]
     for body in (gen.bodies(3, True, 2) if rich else gen.bodies(2, True, 1)):
         for e in 'lB':
@@ -225,13 +225,12 @@ def core_subset(tier):
         [(b'aai', [(b'ai', [(b'i', 1)]), (b'ai', [])])], [(b'd', 0x3ff8000000000000), (b'q', 7)], [(b'a(yv)', [(b'(yv)', [(b'y', 1), (b'v', (b'ay', [(b'y', 9)]))])])],
         [(b'at', [])], [(b'a(ii)', [])], [(b'h', 0)],
     ]
-    if tier == 'thorough':
-        picks += [[tv] for tv in itertools.islice(gen.typed_values(2, False), 0, None, 9)]
+    picks += [[tv] for tv in itertools.islice(gen.typed_values(2, False), 0, None, 9 if tier == 'quick' else 3)]
     for body in picks:
         for e in 'lB':
             out.append(R.Msg(R.MT_CALL, 0, 1, list(hdr), body, e))
     hs = list(gen.header_shapes(False))
-    step = 7 if tier == 'thorough' else 29
+    step = 3 if tier == 'thorough' else 7
     for m in hs[::step]:
         for e in 'lB':
             m2 = m.copy()
@@ -255,7 +254,7 @@ def build_tasks(tier):
         data = R.encode_message(m)
         push(desc, data)
         nvalid += 1
-    rich = tier == 'thorough'
+    rich = True
     ncore = 0
     for m in core_subset(tier):
         data = R.encode_message(m)
@@ -270,7 +269,7 @@ def build_tasks(tier):
         tasks.append((task_batch, list(batch)))
     # unstructured tails: 16-byte fixed header with a fields-array length of L, then every string over the alphabet
     alpha = bytes([0, 1, 8, ord('s'), ord('g'), ord('o')])
-    L = 6 if tier == 'quick' else 8
+    L = 7 if tier == 'quick' else 8
     for e in ('<', '>'):
         fixed = (b'l' if e == '<' else b'B') + bytes([1, 0, 1]) + struct.pack(e + 'III', 0, 1, L)
         pad = b'\0' * ((8 - (16 + L) % 8) % 8)
@@ -333,7 +332,7 @@ def run(ctx):
         'rule': 'inputs = valid messages (all type trees to depth %d x values x [X],[y,X] bodies x 2 byte orders; header shapes: types x optional-field subsets x 2 orders x unknown fields x flags; '
                 'header value variants) + EVERY single-site corruption (byte at every offset x replacement set, every aligned u32 to limit values, every truncation, trailing extensions, '
                 'field delete/duplicate/rotate) of %d core messages + limit boundary messages + all strings over a 6-symbol alphabet in a %d-byte fields array; '
-                'distinct_nontrivial = number of DISTINCT reference verdict/reason classes exercised (each a different rule of the specification)' % (3 if ctx.tier == 'thorough' else 2, ncore, 6 if ctx.tier == 'quick' else 8),
+                'distinct_nontrivial = number of DISTINCT reference verdict/reason classes exercised (each a different rule of the specification)' % (3, ncore, 7 if ctx.tier == 'quick' else 8),
         'valid_shapes': nvalid, 'core_messages': ncore, 'reason_classes': reasons, 'tasks': len(tasks), 'tasks_done': done,
     })
     ctx.samples = [{'desc': 'body', 'canon': 'T=1 F=0 S=1 ... body=[y:1,a{sv}[{s:6b,v:b=b:1}]]'},
